@@ -11,6 +11,8 @@ STATS_INV = [
     ("C17.outcomes", f"0 <= {dstat(E)} and 0 <= {dstat(NC)} and {dstat(E)} <= calls and {dstat(NC)} <= calls"),
     ("C17.others", OTHER_STATS),
 ]
+SIZE = lambda S: f"({S}[top, d, MAX] - {S}[top, d, MIN])"
+QUEUED = lambda T: f"ite({T}[p], 1, 0)"
 OUTER = [
     ("C08.top", "top == stacks_top[0] and same(stacks_top)"),
     ("C08.levels", f"forall(l, 0, H, implies(l != top, lvl_same({SS}, {SS0}, l, D)))"),
@@ -29,12 +31,26 @@ INNER = [
 ]
 
 contract("nucs/solvers/bound_consistency_algorithm.py::bound_consistency_algorithm", types=ENGINE_T,
-    props=["C01", "C02", "C03", "C05", "C07", "C08", "C10", "C16", "C17", "C13", "C19"],
+    props=["C01", "C02", "C03", "C04", "C05", "C07", "C08", "C10", "C16", "C17", "C13", "C19"],
     requires=WF_STATIC + WF_DYN, calls={"compute_domains_fct": "iface:Propagator"}, ghost_calls={"compute_domains_fct": "calls"},
     ghost={"sigma": "int[D]"}, defs=[V_DEF, SOL_DEF], call_ghosts={"compute_domains_fct": {"pidx": "prop_idx", "tvec": "tv(prop_idx)"}},
     modifies=["statistics", "shr_domains_stack", "not_entailed_propagators_stack", "triggered_propagators"],
-    loops={1: dict(fingerprint="while True", invariant=OUTER),
-           2: dict(index="v", fingerprint="for range(prop_var_end - prop_var_start)", invariant=INNER),
+    ghost_init={"dch": 0},
+    loops={1: dict(fingerprint="while True", invariant=OUTER, also_modifies=["dch"],
+                   # C04: lexicographic measure (total size of the current box, number of queued propagators)
+                   decreases=[f"sum(d, 0, D, {SIZE(SS)})", f"sum(p, 0, P, {QUEUED('triggered_propagators')})"],
+                   hints=[f"lemma_sum_zero(d, 0, D, {SIZE(SS)})", f"lemma_sum_zero(p, 0, P, {QUEUED('triggered_propagators')})"],
+                   step_hints=[f"lemma_sum_le(d, 0, D, {SIZE(SS)}, {SIZE('it0(' + SS + ')')})",
+                               f"lemma_sum_le(d, 0, D, {SIZE('it0(' + SS + ')')}, {SIZE(SS)})",
+                               f"lemma_sum_le(p, 0, P, {QUEUED('triggered_propagators')}, {QUEUED('it0(triggered_propagators)')})"],
+                   step_ensures=[
+                       ("C04.shrunk", f"forall(d, 0, D, it0({SS})[top, d, MIN] <= {SS}[top, d, MIN] and {SS}[top, d, MAX] <= it0({SS})[top, d, MAX] and {SS}[top, d, MIN] <= {SS}[top, d, MAX])"),
+                       ("C04.strict", f"implies(shr_domains_changes, 0 <= dch and dch < D and {SS}[top, dch, MAX] - {SS}[top, dch, MIN] < it0({SS})[top, dch, MAX] - it0({SS})[top, dch, MIN])"),
+                       ("C04.popped", "implies(not shr_domains_changes, 0 <= prop_idx and prop_idx < P and it0(triggered_propagators)[prop_idx] and not triggered_propagators[prop_idx] and forall(p, 0, P, implies(triggered_propagators[p], it0(triggered_propagators)[p])))"),
+                   ]),
+           2: dict(index="v", fingerprint="for range(prop_var_end - prop_var_start)", also_modifies=["dch"],
+                   ghost_updates={"dch": "ite(events != 0, shr_domain_idx, dch)"},
+                   invariant=INNER + [("C04.queue_same", "implies(not shr_domains_changes, same_pre(triggered_propagators))"), ("C04.changed", f"implies(shr_domains_changes, 0 <= dch and dch < D and {SS}[top, dch, MAX] - {SS}[top, dch, MIN] < pre({SS})[top, dch, MAX] - pre({SS})[top, dch, MIN])")]),
            3: dict(index="w", fingerprint="for range(prop_var_end - prop_var_start)", invariant=[("C16.prop_idx", "-1 <= prop_idx and prop_idx < P")])},
     ensures=CA_FRAME + [CA_SHRINK, CA_STATUS, CA_BOUND, CA_UNBOUND, CA_PRESERVE,
         ("C17.bc", f"{dstat(BC)} == 1"),
